@@ -8,6 +8,7 @@ From Rsbdd Require Import Core.Bdd Core.Ops.
 Inductive expr : Type :=
 | EX                                              (* the argument of the enclosing [fp] transformer *)
 | ELit (b : bdd)                                  (* a diagram built bottom-up with mk_choice *)
+| ERaw (b : bdd)                                  (* a diagram allocated node by node through the public enum: not reduced *)
 | EVar (v : nat) | EConst (b : bool)
 | ENot (a : expr)
 | EAnd (a b : expr) | EOr (a b : expr) | EImp (a b : expr) | EEq (a b : expr)
@@ -56,6 +57,7 @@ Fixpoint run (n : nat) (x : bdd) (e : expr) {struct n} : option bdd :=
     match e with
     | EX => Some x
     | ELit b => Some (rebuild_lit b)
+    | ERaw b => Some b
     | EVar v => Some (bvar v)
     | EConst b => Some (bconst b)
     | ENot a => bind1 (r a) (fun a' => Some (bnot a'))
